@@ -15,7 +15,7 @@ if len(frags) == 1:
     ev = frags[0]
 else:
     ev = {"property_id": prop, "tier": tier, "seed": int(seed), "level": "exploration"}
-    cov = {"evaluations": 0, "distinct_nontrivial": 0, "rule": frags[0]["coverage"]["rule"] + " (summed over build flavours; distinct counted per flavour slice, slices use disjoint run counts of the same seed)", "samples": []}
+    cov = {"evaluations": 0, "distinct_nontrivial": 0, "rule": frags[0]["coverage"]["rule"] + " (evaluations are summed over the build-flavour slices; the same run index under another flavour is the same plan, so distinct_nontrivial is the maximum over the slices, not their sum)", "samples": []}
     counters = {}
     faults = {}
     slices = []
